@@ -104,11 +104,13 @@ class Env:
         self.loops = dict(loops or {})        # loop variable -> iterable expression
         self.keep = set(keep or ())           # names never expanded
         self.values: Dict[str, "Poly"] = {}   # flow-sensitive current values (see forward())
+        self.seq: Set[str] = set()            # names known to hold a string / list (their `+` is concatenation)
         self._active: List[str] = []
 
     def child(self, **kw) -> "Env":
         e = Env(self.defs, self.rename, self.loops, self.keep)
         e.values = dict(self.values)
+        e.seq = set(self.seq)
         for k, v in kw.items():
             getattr(e, k).update(v)
         return e
@@ -300,7 +302,7 @@ def _sym(e: ast.AST, env: Env) -> Poly:
     if isinstance(e, ast.BinOp):
         l, r = _sym(e.left, env), _sym(e.right, env)
         if isinstance(e.op, ast.Add):
-            if _is_seq(e.left) or _is_seq(e.right):
+            if _is_seq(e.left, env) or _is_seq(e.right, env):
                 return _atom("concat(%s, %s)" % (l, r))
             return l + r
         if isinstance(e.op, ast.Sub):
@@ -319,7 +321,7 @@ def _sym(e: ast.AST, env: Env) -> Poly:
                 return Poly.const(lc % rc)
             return _atom("(%s)%%(%s)" % (l, r))
         if isinstance(e.op, ast.Pow):
-            if rc is not None and 0 <= rc <= 4 and not (_is_seq(e.left)):
+            if rc is not None and 0 <= rc <= 4 and not (_is_seq(e.left, env)):
                 out = Poly.const(1)
                 for _ in range(rc):
                     out = out * l
@@ -413,9 +415,37 @@ def _sym(e: ast.AST, env: Env) -> Poly:
     return _atom(ast.unparse(e))
 
 
-def _is_seq(e: ast.AST) -> bool:
-    return isinstance(e, (ast.List, ast.Tuple, ast.ListComp)) or \
-        (isinstance(e, ast.Call) and isinstance(e.func, ast.Name) and e.func.id in ("list", "tuple", "reversed"))
+_SEQ_FUNCS = {"list", "tuple", "reversed", "sorted", "str", "repr", "map", "filter", "zip", "chain", "range", "set", "dict"}
+_SEQ_METHODS = {"join", "format", "replace", "strip", "lstrip", "rstrip", "split", "splitlines", "lower", "upper", "copy",
+                "get_n_fresh", "read_text", "decode", "keys", "values", "items"}
+
+
+def _is_seq(e: ast.AST, env: Optional[Env] = None) -> bool:
+    """definitely a string / list valued expression: `+` on it is concatenation (ordered), not ring addition"""
+    if isinstance(e, (ast.List, ast.Tuple, ast.ListComp, ast.JoinedStr, ast.Dict, ast.Set)):
+        return True
+    if isinstance(e, ast.Constant):
+        return isinstance(e.value, (str, bytes))
+    if isinstance(e, ast.Call):
+        if isinstance(e.func, ast.Name):
+            if e.func.id in _SEQ_FUNCS:
+                return True
+            if e.func.id == "cast" and len(e.args) == 2:
+                return _is_seq(e.args[1], env)
+        if isinstance(e.func, ast.Attribute) and e.func.attr in _SEQ_METHODS:
+            return True
+        return False
+    if isinstance(e, ast.Subscript):
+        return isinstance(e.slice, ast.Slice)
+    if isinstance(e, ast.BinOp) and isinstance(e.op, ast.Add):
+        return _is_seq(e.left, env) or _is_seq(e.right, env)
+    if isinstance(e, ast.BinOp) and isinstance(e.op, ast.Mult):
+        return _is_seq(e.left, env) or _is_seq(e.right, env)
+    if isinstance(e, ast.IfExp):
+        return _is_seq(e.body, env) or _is_seq(e.orelse, env)
+    if isinstance(e, ast.Name) and env is not None:
+        return e.id in env.seq
+    return False
 
 
 def _slice(s: ast.AST, env: Env) -> str:
@@ -454,6 +484,10 @@ def forward(fn_node: ast.AST, base: Optional[Env] = None) -> Dict[int, Env]:
 
     def bind(env: Env, target: ast.AST, value: Optional[ast.AST], value_poly: Optional[Poly] = None):
         if isinstance(target, ast.Name):
+            if value is not None and _is_seq(value, env):
+                env.seq.add(target.id)
+            elif value is not None:
+                env.seq.discard(target.id)
             if value_poly is not None:
                 env.values[target.id] = value_poly
             elif value is not None:
